@@ -24,6 +24,8 @@ var SharedLists = map[string][]string{
 	"L3": {"GPL-2.0-or-later"},
 	"L4": {"Zlib", "MIT"},
 	"L5": {"zlib", "ISC", "isc", "MIT", "Apache-2.0", "0BSD", "mit"},
+	"L6": {"MIT AND ISC", "LicenseRef-q", "MIT WITH Bison-exception-2.2"},
+	"L7": {"mit and isc", "licenseref-q", "MIT and ISC", "mit with bison-exception-2.2", "LicenseRef-Q"},
 }
 
 // Alphabet is the fixed call alphabet Σ of the history explorer.
@@ -58,6 +60,13 @@ var Alphabet = []Call{
 	{Fn: "ExtractLicenses", Expr: "licenseref-a or MIT"},
 	{Fn: "Satisfies", Expr: "MIT AND ISC", List: "L5"},
 	{Fn: "ValidateLicenses", List: "L5"},
+	// the same text up to letter case where case matters (operators, reference prefixes)
+	{Fn: "ValidateLicenses", List: "L6"},
+	{Fn: "ValidateLicenses", List: "L7"},
+	{Fn: "ExtractLicenses", Expr: "MIT AND ISC"},
+	{Fn: "ExtractLicenses", Expr: "mit and isc"},
+	{Fn: "Satisfies", Expr: "mit AND isc", List: "L4"},
+	{Fn: "Satisfies", Expr: "MIT and ISC", List: "L4"},
 }
 
 // instance lists: the slices actually passed (shared between calls that name the same list)
